@@ -190,7 +190,8 @@ Proof. exact fx_hist_refuted_without_deferral. Qed.
     re-add / destructor calls made for it and its parts.  After EVERY history of such events over any number of
     maps, in every map the existing entities have pairwise distinct positive IDs, and so have the existing
     brushes (world brushes and those of entities together) and the existing faces — with the release and copy
-    discipline of the three kinds read from the source. *)
+    discipline of the three kinds read from the source.  collapse_one is an event of this world: WHICH objects it copies
+    (the listed world brushes of the instance map in list order, then its listed entities) is computed by the model. *)
 Theorem c08_nested_world_unique : ∀ es m,
   release_on_remove KEnt = false → release_on_remove KSolid = false → release_on_remove KFace = false →
   copy_to_dest KEnt = true → copy_to_dest KSolid = true → copy_to_dest KFace = true →
@@ -205,3 +206,8 @@ Theorem c08_nested_copy_from_source_refuted :
   let w := trun false false false true false false nested_copy_history in
   live_ids_in 1 (tE w) = [1] ∧ live_ids_in 1 (tS w) = [1; 2; 2] ∧ live_ids_in 1 (tF w) = [1; 2; 2].
 Proof. exact nested_copy_from_source_refuted. Qed.
+(** collapse_one as one event is the fold of the copy() bundles of the instance map's listed brushes, then entities. *)
+Theorem c08_nested_collapse_is_copies : ∀ r1 r2 r3 c1 c2 c3 w s m, s ≠ m →
+  tstep r1 r2 r3 c1 c2 c3 w (TCollapse s m) =
+  fold_left (tstep r1 r2 r3 c1 c2 c3) ((λ t, TCopy t m (-1) true) <$> (tlisted_of w s false ++ tlisted_of w s true)) w.
+Proof. exact tcollapse_is_copies. Qed.
